@@ -128,6 +128,7 @@ type HarnessRun struct {
 	stubs      map[string]bool
 	assumptions map[string]bool
 	asserts    map[string]int // label -> number of times checked
+	assertsFolded map[string]int // label -> times the condition folded to true by the engine's normal forms (no solver query)
 	steps      int64
 	maxPaths   int64
 	deadline   time.Time
@@ -525,6 +526,12 @@ func (r *Run) assertBranch(notc *Term) (bool, map[string]uint64) {
 	if res == "unknown" {
 		r.h.noteOutcomeMsg("solver-unknown", r.curPos())
 	}
+	if res == "sat" && r.ts.abstracted {
+		// the model was found under the product abstraction: look for one that respects the real products
+		if m2 := r.refineProducts(notc); m2 != nil {
+			m = m2
+		}
+	}
 	viol := res != "unsat"
 	if viol {
 		// the non-violating side continues on another path when feasible
@@ -544,6 +551,41 @@ func (r *Run) assertBranch(notc *Term) (bool, map[string]uint64) {
 	r.log = append(r.log, Decision{'b', 0})
 	r.addPC(r.ts.BNot(notc))
 	return false, nil
+}
+
+// refineProducts re-asks the query with every abstracted product tied to its factors (non-linear
+// integer arithmetic); returns a model if the solver finds one within the time limit.
+func (r *Run) refineProducts(c *Term) map[string]uint64 {
+	r.flush()
+	r.emit(c)
+	for _, d := range r.ts.monoDefs {
+		r.emit(d[0])
+		r.emit(d[1])
+		r.emit(d[2])
+	}
+	r.solver.Send("(push 1)")
+	r.solver.Send("(assert " + c.ref() + ")")
+	for _, d := range r.ts.monoDefs {
+		r.solver.Send(fmt.Sprintf("(assert (= %s (* %s %s)))", d[0].ref(), d[1].ref(), d[2].ref()))
+	}
+	res := r.solver.CheckSat()
+	var m map[string]uint64
+	if res == "sat" {
+		var refs []string
+		for _, v := range r.ts.vars {
+			if r.declared[v.name] {
+				refs = append(refs, v.ref())
+			}
+		}
+		if vals, ok := r.solver.GetValues(refs); ok {
+			m = vals
+		}
+	}
+	if res == "dead" {
+		return nil
+	}
+	r.solver.Send("(pop 1)")
+	return m
 }
 
 // recordViolation stores a violation with an already known model.
